@@ -33,7 +33,7 @@
 (*                                                                         *)
 (*  assureType      at_lock at_read at_write at_unlock                     *)
 (*  resolveReflect  rr_lock1 rr_check [regField] rr_unlock1                *)
-(*                  rr_lock2 rr_copy rr_unlock2 rr_use                     *)
+(*                  rr_lock2 rr_copy rr_unlock2 rr_use | rr_call           *)
 (*  regField        rf_lock rf_read rf_unlock [rf_read2] rf_write          *)
 (*  metaCheck       mc_lock mc_read mc_write mc_unlock                     *)
 (*  getReflectType  grt_lock grt_read grt_unlock                           *)
@@ -260,8 +260,16 @@ RrUnlock2(g) ==
   /\ loc[g].pc = "rr_unlock2"
   /\ fdMu' = IF fdMu[FD(g)] = g THEN [fdMu EXCEPT ![FD(g)] = 0] ELSE fdMu
   /\ IF loc[g].lb.k = "field" THEN Goto(g, "rr_use") /\ UNCHANGED out
+     ELSE IF loc[g].lb.k = "method" THEN Goto(g, "rr_call") /\ UNCHANGED out
      ELSE Finish(g, CallOutcome(loc[g].lb, Cur(g).T, Cur(g).f))
   /\ UNCHANGED <<meta, bind, objMu, Fixed>>
+
+\* method.Call(args): the call into application code, with the copy of the binding taken under fd.mu.
+\* Application code may wait for application code called for another request: no lock may be held here.
+RrCall(g) ==
+  /\ loc[g].pc = "rr_call"
+  /\ Finish(g, CallOutcome(loc[g].lb, Cur(g).T, Cur(g).f))
+  /\ UNCHANGED <<Shared, Fixed>>
 
 \* ov.FieldByName(fd.goField): reads fd.goField again, no lock held (resolve.go)
 RrUse(g) ==
@@ -352,7 +360,7 @@ Step(g) ==
   \/ AtLock(g) \/ AtRead(g) \/ AtWrite(g)
   \/ (IF "LockOrderInverted" \in Dev THEN InvAtLock(g) \/ InvUnlock(g) ELSE AtUnlock(g))
   \/ RrLock1(g) \/ RrCheck(g) \/ RfLock(g) \/ RfRead(g) \/ RfUnlock(g) \/ RfRead2(g) \/ RfWrite(g) \/ RrUnlock1(g)
-  \/ RrLock2(g) \/ RrCopy(g) \/ RrUnlock2(g) \/ RrUse(g)
+  \/ RrLock2(g) \/ RrCopy(g) \/ RrUnlock2(g) \/ RrUse(g) \/ RrCall(g)
   \/ McLock(g) \/ McRead(g) \/ McWrite(g) \/ McUnlock(g)
   \/ GrtLock(g) \/ GrtRead(g) \/ GrtUnlock(g)
 
@@ -371,6 +379,7 @@ Acc(g) ==
     [] l = "mc_write" -> [k |-> "W", v |-> MetaVar(ScanObj(g)), l |-> l]
     [] l \in {"rr_check", "rr_copy", "rr_use"} -> [k |-> "R", v |-> BindVar(FD(g)), l |-> l]
     [] l = "rf_write" -> [k |-> IF RfKind(g) = "none" THEN "N" ELSE "W", v |-> BindVar(FD(g)), l |-> l]
+    [] l = "rr_call" -> [k |-> "C", v |-> BindVar(FD(g)), l |-> l]      \* no shared access ("C"): the point where ggql calls out
     [] OTHER -> [k |-> "N", v |-> <<"", "", "">>, l |-> l]
 
 \* the locks goroutine g holds
@@ -380,7 +389,7 @@ Held(g) == {<<"obj", o, "">> : o \in {o \in W.objs : objMu[o] = g}}
 \* Two accesses race iff they are by different goroutines, to the same variable, at least one
 \* is a write, and both are enabled in the same state (access steps are always enabled), i.e.
 \* nothing orders them.  Holding a common mutex makes that impossible.
-Conflict(a, b) == a.k # "N" /\ b.k # "N" /\ a.v = b.v /\ (a.k = "W" \/ b.k = "W")
+Conflict(a, b) == a.k \in {"R", "W"} /\ b.k \in {"R", "W"} /\ a.v = b.v /\ (a.k = "W" \/ b.k = "W")
 Racing == {p \in G \X G : p[1] < p[2] /\ Conflict(Acc(p[1]), Acc(p[2]))}
 NoRace == Racing = {}
 
@@ -399,6 +408,10 @@ Required(g) ==
     [] OTHER -> {}
 Holder(r) == IF r[1] = "obj" THEN objMu[r[2]] ELSE fdMu[<<r[2], r[3]>>]
 HeldCoversRequired == \A g \in G : \A r \in Required(g) : Holder(r) = g      \* = Required(g) \subseteq Held(g)
+\* ggql calls into application code (a reflected field read, a bound method) with no lock of its own held:
+\* resolvers that wait for each other (batching loaders, caches filled once) would otherwise deadlock
+CallsOut == {"rr_use", "rr_call"}
+CallsOutUnlocked == \A g \in G : loc[g].pc \in CallsOut => Held(g) = {}
 
 \* a mutex has one holder and the holder is inside the section
 ObjSection == {"at_read", "at_write", "at_unlock", "rf_read", "rf_unlock", "mc_read", "mc_write", "mc_unlock",
@@ -476,6 +489,7 @@ LabelCode ==
     rr_check  |-> LC("(*Root).resolveReflect", "R", "FieldDef.binding", "", <<"len(fd.goField) == 0 && fd.method == nil">>),
     rr_copy   |-> LC("(*Root).resolveReflect", "R", "FieldDef.binding", "", <<":= fd.goField", ":= fd.method">>),
     rr_use    |-> LC("(*Root).resolveReflect", "R", "FieldDef.binding", "", <<"FieldByName(fd.goField)">>),
+    rr_call   |-> LC("(*Root).resolveReflect", "C", "FieldDef.binding", "", <<"method.Call(args)">>),
     mc_read   |-> LC("(*Object).metaCheck", "R", "Object.meta", "", <<"t.meta == nil", "return t.meta">>),
     mc_write  |-> LC("(*Object).metaCheck", "W", "Object.meta", "", <<"t.meta = rt">>),
     grt_read  |-> LC("(*Root).getReflectType", "R", "Object.meta", "", <<"o.meta == meta">>) ]
